@@ -251,8 +251,8 @@ class Problem:
         if prep.startswith("fn-"):
             return fn
         sl, al = list(self.env.state_list), list(self.env.action_list)
-        if prep == "to_tabular":
-            return fn.to_tabular(sl, al)
+        if prep == "to_tabular":       # (zero entries of never-available actions are not in the inferred action list)
+            return FunctionalPolicy(lambda s: self._adist(sidx[s], "dict")).to_tabular(sl, al)
         data = np.array([[m["W"][sidx[s]][self.alabel.index(a)] / m["QD"] for a in al] for s in sl])
         return TabularPolicy.from_state_action_lists(state_list=sl, action_list=al, data=data)
 
